@@ -1,0 +1,66 @@
+//go:build verif
+
+package fastq
+
+// Machine-checked contracts for /verif/govc (contract-based deductive
+// verification). Comments only; this file compiles to nothing and is only
+// read with the build tag "verif".
+
+// The line stream behind r.s (assumed contract of bufio.Scanner with
+// ScanLines, see /verif/govc/extern.go): lines[0..n), next line index pos;
+// Scan past the last line returns false with Err() == nil, or - if fault - a
+// non-nil error (I/O error or token too long); done = Scan has returned false.
+
+//@ func reader.read
+//@   props C02 C07 C11 C18
+//@   let S := r.s
+//@   let p0 := old(r.s.pos)
+//@   let d0 := old(r.s.done)
+//@   ensures result.1 == nil <==> result.0 != nil
+//@   ensures result.1 == nil ==> !d0 && p0 + 4 <= S.n && S.pos == p0 + 4
+//@   ensures result.1 == nil ==> len(S.lines[p0]) > 0 && S.lines[p0][0] == '@'
+//@   ensures result.1 == nil ==> len(S.lines[p0+2]) > 0 && S.lines[p0+2][0] == '+'
+//@   ensures result.1 == nil ==> len(S.lines[p0+3]) == len(S.lines[p0+1])
+//@   ensures result.1 == nil ==> len(result.0.Name) == len(S.lines[p0]) - 1 &&
+//@             forall j int :: 0 <= j && j < len(result.0.Name) ==> result.0.Name[j] == S.lines[p0][j+1]
+//@   ensures result.1 == nil ==> len(result.0.Sequence) == len(S.lines[p0+1]) &&
+//@             forall j int :: 0 <= j && j < len(result.0.Sequence) ==> result.0.Sequence[j] == S.lines[p0+1][j]
+//@   ensures result.1 == nil ==> len(result.0.Quals) == len(S.lines[p0+3]) &&
+//@             forall j int :: 0 <= j && j < len(result.0.Quals) ==> result.0.Quals[j] == S.lines[p0+3][j]
+//@   ensures result.1 == 1 <==> ((d0 || p0 == S.n) && !((d0 || p0 == S.n) && S.fault && S.pos == S.n))
+//@   ensures S.fault && S.done && S.pos == S.n ==> result.1 != nil && result.1 != 1
+//@   ensures S.pos >= p0 && S.pos <= S.n
+
+//@ func reader.iter
+//@   props C02 C07 C18
+//@   yields Y
+//@   ensures forall t int :: 0 <= t && t < len(Y) && Y[t].1 != nil ==> t == len(Y)-1
+//@   ensures forall t int :: 0 <= t && t < len(Y) ==> (Y[t].1 != nil <==> Y[t].0 == nil)
+//@   ensures forall t int :: 0 <= t && t < len(Y) ==> Y[t].1 != 1
+//@   ensures !stopped && r.s.fault ==> len(Y) > 0 && Y[len(Y)-1].1 != nil
+//@   loop 1
+//@     invariant r != nil
+//@     invariant forall t int :: 0 <= t && t < len(Y) ==> Y[t].1 == nil && Y[t].0 != nil
+//@     invariant r.s.pos <= r.s.n
+//@     decreases r.s.n - r.s.pos
+
+//@ func Reader
+//@   props C06 C07 C18
+//@   yields Y
+//@   ensures forall t int :: 0 <= t && t < len(Y) && Y[t].1 != nil ==> t == len(Y)-1
+//@   ensures forall t int :: 0 <= t && t < len(Y) ==> (Y[t].1 != nil <==> Y[t].0 == nil)
+//@   ensures-notrace !stopped ==> len(Y) == len(Z)
+//@   ensures-notrace len(Y) <= len(Z) && forall t int :: 0 <= t && t < len(Y) ==> same(Y[t], Z[t])
+//@   loop 1
+//@     invariant len(Y) == K && forall t int :: 0 <= t && t < K ==> same(Y[t], Z[t])
+
+//@ func File
+//@   props C06 C18
+//@   yields Y
+//@   let ZR := items(Reader, opened(file))
+//@   ensures openFails(file) ==> len(Y) == 1 && Y[0].1 != nil && Y[0].0 == nil
+//@   ensures !openFails(file) && !stopped ==> len(Y) == len(ZR)
+//@   ensures !openFails(file) ==> len(Y) <= len(ZR) && forall t int :: 0 <= t && t < len(Y) ==> same(Y[t], ZR[t])
+//@   ensures forall t int :: 0 <= t && t < len(Y) && Y[t].1 != nil ==> t == len(Y)-1
+//@   loop 1
+//@     invariant !openFails(file) && len(Y) == K && forall t int :: 0 <= t && t < K ==> same(Y[t], ZR[t])
